@@ -8,6 +8,7 @@ scenario kinds
   like_raise    the user's likelihood raises at batch k; monitors then inspect what is readable
   pool_death    a pool worker dies during map #k; the exception must surface
 """
+import os
 import re
 
 from .oracles import IterCap
@@ -24,6 +25,22 @@ def latest_checkpoint(fs, d="/simfs/out", label="ps"):
         if m and int(m.group(1)) > bi:
             best, bi = p, int(m.group(1))
     return best
+
+
+def _note_exc(info, e, prefix=""):
+    """Record an exception that ended a library call.  An exception without any library frame in its traceback was raised by the
+    harness's own code (a monitor, a target): that is a harness error and must not be mistaken for an outcome of the run."""
+    import traceback as _tb
+
+    tb = _tb.extract_tb(e.__traceback__)
+    site = [f for f in tb if "/tempest/" in f.filename]
+    inner = tb[-1].filename if tb else ""
+    if not site or (os.path.dirname(os.path.abspath(__file__)) in os.path.abspath(inner) and os.path.basename(inner) not in ("simfs.py", "simpool.py", "targets.py", "seams.py")):
+        raise e  # raised by a monitor / oracle / reference model: harness error
+    info["exc"] = f"{prefix}{type(e).__name__}: {str(e)[:160]}"
+    info["exc_type"] = type(e).__name__
+    info["exc_site"] = f"{site[-1].filename.split('/tempest/')[-1]}:{site[-1].name}"
+    forget(e)
 
 
 def execute(case, monitors, iter_cap=400):
@@ -102,21 +119,12 @@ def execute(case, monitors, iter_cap=400):
                     except SimHang:
                         raise
                     except Exception as e2:
-                        info["exc"] = f"after {info['exc']}: {type(e2).__name__}: {str(e2)[:160]}"
-                        info["exc_type"] = type(e2).__name__
+                        _note_exc(info, e2, prefix=f"after {info['exc']}: ")
                         info["exc_after_exception"] = True
-                        forget(e2)
             except SimHang:
                 raise
             except Exception as e:
-                info["exc"] = f"{type(e).__name__}: {str(e)[:160]}"
-                info["exc_type"] = type(e).__name__
-                import traceback as _tb
-
-                tb = _tb.extract_tb(e.__traceback__)
-                site = [f for f in tb if "/tempest/" in f.filename]
-                info["exc_site"] = f"{site[-1].filename.split('/tempest/')[-1]}:{site[-1].name}" if site else "?"
-                forget(e)
+                _note_exc(info, e)
             info["iters"].append(inc.n_commits)
             if inc.rng.extremes_fired:
                 w.bump("fault.fired.rng.extreme", inc.rng.extremes_fired)
@@ -138,9 +146,7 @@ def execute(case, monitors, iter_cap=400):
                 except SimHang:
                     raise
                 except Exception as e:
-                    info["exc"] = f"{type(e).__name__}: {str(e)[:160]}"
-                    info["exc_type"] = type(e).__name__
-                    forget(e)
+                    _note_exc(info, e)
         if kind == "resume_final" and info["completed"]:
             # the run finished and left checkpoints; a new process resumes from the final (or the newest periodic) one,
             # possibly asking for fewer effective samples than already collected (zero further iterations)
@@ -166,9 +172,7 @@ def execute(case, monitors, iter_cap=400):
                 except SimHang:
                     raise
                 except Exception as e:
-                    info["exc"] = f"{type(e).__name__}: {str(e)[:160]}"
-                    info["exc_type"] = type(e).__name__
-                    forget(e)
+                    _note_exc(info, e)
                 info["iters"].append(inc.n_commits)
         if kind == "crash_resume" and info["crashed"]:
             ck = latest_checkpoint(w.fs)
@@ -190,9 +194,7 @@ def execute(case, monitors, iter_cap=400):
                 except SimHang:
                     raise
                 except Exception as e:
-                    info["exc"] = f"{type(e).__name__}: {str(e)[:160]}"
-                    info["exc_type"] = type(e).__name__
-                    forget(e)
+                    _note_exc(info, e)
                 info["iters"].append(inc.n_commits)
     except SimHang as e:
         info["hang"] = str(e)
